@@ -7,7 +7,8 @@ Require Import Floats.SpecFloat.
 Require Import ZArith Reals List.
 From Flocq Require Import Core BinarySingleNaN.
 From Dasp Require Import Base.Res Base.Float Ring.Fixed Ring.FixedSpec Dsp.Rms Dsp.Sqrt Dsp.RmsInst
-  Dsp.RmsProofs Dsp.RmsIeee Dsp.RmsErr Dsp.RmsErrProofs Dsp.SqrtReal Dsp.SqrtProofs Dsp.RmsExamples.
+  Dsp.RmsProofs Dsp.RmsIeee Dsp.RmsErr Dsp.RmsErrProofs Dsp.SqrtReal Dsp.SqrtProofs Dsp.RmsExamples
+  Dsp.RmsDrift Dsp.RmsDriftProofs Dsp.RmsOutProofs Dsp.RmsVerdictProofs.
 From Flocq Require Import Calc.Operations.
 From DaspGen Require Import SqrtMagic.
 Import ListNotations.
@@ -130,14 +131,132 @@ Theorem c11_sqrt_trick_zero :
 Proof. exact sqrt_trick_zero. Qed.
 Print Assumptions c11_sqrt_trick_zero.
 
-(* error bound E (Dsp/RmsErr.v, the tolerance of the correspondence verdict): one step of the
-   executable recurrence is sound for the standard rounding model of the three operations of
-   next_squared (x*x, sum + new, - evicted) followed by the clamp.
-   PARTIAL: missing is the induction along the Flocq run of the model that discharges the five
-   rounding hypotheses with Bmult/Bplus/Bminus_correct + relative_error_N_FLT_ex (no overflow)
-   and ties the evicted float square to the evicted exact square; until then the tolerance of the
-   verdict is argued (by this theorem), not proved end to end. *)
-Theorem c11_drift_bound_partial : forall (u eta S T q r : dy) (s qt rt a d : R),
+(* ---------------------------------------------------------------------------------------------
+   DRIFT BOUND ("within a rigorous floating-point error bound"), proved end to end for the IEEE run.
+
+   For every window length N >= 1, channel count C, start index, every history [ops] of
+   next / next_squared / current / reset on a zero-initialised window (resets included) and every
+   number k of executed operations: if no stored running sum of the run is infinite or NaN
+   ([sums_ok .. is_finite], a boolean on the model run, RmsDrift.v -- it implies that every input,
+   every square x*x and every intermediate sum/difference was finite; it is exactly what the verdict
+   of the correspondence tests before it applies the tolerance), then the run does not panic and
+   in every channel c
+       | square_sum_k - S_k |  <=  E_k
+   where S_k = [esum e] = the exact sum of the squares of the last N inputs since new/reset
+   ([sum_sq c (last_n N C ..)], the vocabulary of c11_value) and E_k = [eerr e] is the value of the
+   executable recurrence of Dsp/RmsErr.v run on the exact dyadic inputs ([e_after] = [e_bound] from
+   [e_init]; reset: E restarts at 0) -- the SAME function that is the tolerance of the
+   correspondence verdict (RmsRun.verdict / e_verdict).
+   [sq] (the square root of the numeric record) is arbitrary: the statement covers the std and the
+   no_std build.  [c11_drift_bound] is the statement for ANY binary floating-point format
+   (prec, emax); _f32 / _f64 are its instances on the executed models NumF32 / NumF64. *)
+Theorem c11_drift_bound : forall (prec emax : Z) (Hp : Prec_gt_0 prec) (He : Prec_lt_emax prec emax)
+    (ofn : nat -> binary_float prec emax) (sq : binary_float prec emax -> binary_float prec emax),
+  let K := NumG prec emax Hp He ofn sq in
+  forall (N C fst0 : nat) (ops : list (op K)) (k : nat),
+  (1 <= N)%nat -> (fst0 < N)%nat -> Forall (opK_ok K C) ops ->
+  sums_ok K is_finite (new_stateK K N C fst0) ops = true ->
+  exists st_k outs, run K (new_stateK K N C fst0) (firstn k ops) = Ok (st_k, outs) /\
+    flen (window K st_k) = N /\ length (square_sum K st_k) = C /\
+    forall c, (c < C)%nat ->
+      let e := e_after prec emax N (chan_evs K c (firstn k ops)) in
+      let s := nth c (square_sum K st_k) (B754_zero false) in
+      F2R (esum e) = sum_sq c (last_n N C (feed [] (map (opR (K := K) B2R) (firstn k ops)))) /\
+      is_finite s = true /\ (0 <= B2R s)%R /\
+      (Rabs (B2R s - F2R (esum e)) <= F2R (eerr e))%R.
+Proof. exact drift_bound_steps. Qed.
+Print Assumptions c11_drift_bound.
+
+Theorem c11_drift_bound_f32 : forall (sq : f32 -> f32) (N C fst0 : nat) (ops : list (op (NumF32 sq))) (k : nat),
+  (1 <= N)%nat -> (fst0 < N)%nat -> Forall (opK_ok (NumF32 sq) C) ops ->
+  sums_ok (NumF32 sq) F32.is_finite (new_stateK (NumF32 sq) N C fst0) ops = true ->
+  exists st_k outs, run (NumF32 sq) (new_stateK (NumF32 sq) N C fst0) (firstn k ops) = Ok (st_k, outs) /\
+    flen (window (NumF32 sq) st_k) = N /\ length (square_sum (NumF32 sq) st_k) = C /\
+    forall c, (c < C)%nat ->
+      let e := e_after 24 128 N (chan_evs (NumF32 sq) c (firstn k ops)) in
+      let s := nth c (square_sum (NumF32 sq) st_k) F32.zero in
+      F2R (esum e) = sum_sq c (last_n N C (feed [] (map (opR (K := NumF32 sq) B2R) (firstn k ops)))) /\
+      F32.is_finite s = true /\ (0 <= B2R s)%R /\
+      (Rabs (B2R s - F2R (esum e)) <= F2R (eerr e))%R.
+Proof. exact drift_bound_f32. Qed.
+Print Assumptions c11_drift_bound_f32.
+
+Theorem c11_drift_bound_f64 : forall (sq : f64 -> f64) (N C fst0 : nat) (ops : list (op (NumF64 sq))) (k : nat),
+  (1 <= N)%nat -> (fst0 < N)%nat -> Forall (opK_ok (NumF64 sq) C) ops ->
+  sums_ok (NumF64 sq) F64.is_finite (new_stateK (NumF64 sq) N C fst0) ops = true ->
+  exists st_k outs, run (NumF64 sq) (new_stateK (NumF64 sq) N C fst0) (firstn k ops) = Ok (st_k, outs) /\
+    flen (window (NumF64 sq) st_k) = N /\ length (square_sum (NumF64 sq) st_k) = C /\
+    forall c, (c < C)%nat ->
+      let e := e_after 53 1024 N (chan_evs (NumF64 sq) c (firstn k ops)) in
+      let s := nth c (square_sum (NumF64 sq) st_k) F64.zero in
+      F2R (esum e) = sum_sq c (last_n N C (feed [] (map (opR (K := NumF64 sq) B2R) (firstn k ops)))) /\
+      F64.is_finite s = true /\ (0 <= B2R s)%R /\
+      (Rabs (B2R s - F2R (esum e)) <= F2R (eerr e))%R.
+Proof. exact drift_bound_f64. Qed.
+Print Assumptions c11_drift_bound_f64.
+
+(* the OUTPUT of the std detector (IEEE division by `len as f32`, correctly rounded square root) after
+   any such history, against the true RMS of c11_value, for window lengths N <= 2^24 (`len as f32`
+   exact):   |out - rms| <= (1 + 3u) sqrt(E/N) + 3u rms + 3 sqrt(eta),   u = 2^-prec, eta = 2^(emin-1)
+   (sqrt(eta) = 2^-75 / 2^-538: the quotient sum/N may be subnormal).  current() of the state after
+   the history is also the last output of next() (rms_next_gen). *)
+Theorem c11_output_bound_f32 : forall (N C fst0 : nat) (ops : list (op NumF32std)),
+  (1 <= N)%nat -> (Z.of_nat N <= 2 ^ 24)%Z -> (fst0 < N)%nat -> Forall (opK_ok NumF32std C) ops ->
+  sums_ok NumF32std F32.is_finite (new_stateK NumF32std N C fst0) ops = true ->
+  exists st' outs, run NumF32std (new_stateK NumF32std N C fst0) ops = Ok (st', outs) /\
+    length (rms_current NumF32std st') = C /\
+    forall c, (c < C)%nat ->
+      let Ek := F2R (eerr (e_after 24 128 N (chan_evs NumF32std c ops))) in
+      let rms := true_rms N C (feed [] (map (opR (K := NumF32std) B2R) ops)) c in
+      (Rabs (B2R (nth c (rms_current NumF32std st') F32.zero) - rms) <=
+       (1 + 3 * F2R (u_of 24)) * R_sqrt.sqrt (Ek / INR N) + 3 * F2R (u_of 24) * rms
+       + 3 * R_sqrt.sqrt (F2R (eta_of 24 128)))%R.
+Proof. exact out_bound_f32. Qed.
+Print Assumptions c11_output_bound_f32.
+
+Theorem c11_output_bound_f64 : forall (N C fst0 : nat) (ops : list (op NumF64std)),
+  (1 <= N)%nat -> (Z.of_nat N <= 2 ^ 24)%Z -> (fst0 < N)%nat -> Forall (opK_ok NumF64std C) ops ->
+  sums_ok NumF64std F64.is_finite (new_stateK NumF64std N C fst0) ops = true ->
+  exists st' outs, run NumF64std (new_stateK NumF64std N C fst0) ops = Ok (st', outs) /\
+    length (rms_current NumF64std st') = C /\
+    forall c, (c < C)%nat ->
+      let Ek := F2R (eerr (e_after 53 1024 N (chan_evs NumF64std c ops))) in
+      let rms := true_rms N C (feed [] (map (opR (K := NumF64std) B2R) ops)) c in
+      (Rabs (B2R (nth c (rms_current NumF64std st') F64.zero) - rms) <=
+       (1 + 3 * F2R (u_of 53)) * R_sqrt.sqrt (Ek / INR N) + 3 * F2R (u_of 53) * rms
+       + 3 * R_sqrt.sqrt (F2R (eta_of 53 1024)))%R.
+Proof. exact out_bound_f64. Qed.
+Print Assumptions c11_output_bound_f64.
+
+(* the verdict of the correspondence, as a theorem about the model: on every such run the executable
+   verdict [e_verdict] (RmsErr.v; RmsRun.verdict applies it to the events of each channel: every
+   pushed sample with the sum stored after it, [sobs]) accepts.  Hence a verdict failure of the check
+   on the model run cannot come from the model, and "crate = model bit for bit" is what carries the
+   bound to the crate. *)
+Theorem c11_verdict_accepts_model_f32 : forall (sq : f32 -> f32) (N C fst0 : nat) (ops : list (op (NumF32 sq))),
+  (1 <= N)%nat -> (fst0 < N)%nat -> Forall (opK_ok (NumF32 sq) C) ops ->
+  sums_ok (NumF32 sq) F32.is_finite (new_stateK (NumF32 sq) N C fst0) ops = true ->
+  forall c, (c < C)%nat ->
+    e_verdict (u_of 24) (eta_of 24 128) N (e_init N)
+      (sobs (NumF32 sq) B2Dy (clamp (NumF32 sq)) N (sreset (NumF32 sq) N) (chan_evs (NumF32 sq) c ops)) = true.
+Proof. exact verdict_model_f32. Qed.
+Print Assumptions c11_verdict_accepts_model_f32.
+
+Theorem c11_verdict_accepts_model_f64 : forall (sq : f64 -> f64) (N C fst0 : nat) (ops : list (op (NumF64 sq))),
+  (1 <= N)%nat -> (fst0 < N)%nat -> Forall (opK_ok (NumF64 sq) C) ops ->
+  sums_ok (NumF64 sq) F64.is_finite (new_stateK (NumF64 sq) N C fst0) ops = true ->
+  forall c, (c < C)%nat ->
+    e_verdict (u_of 53) (eta_of 53 1024) N (e_init N)
+      (sobs (NumF64 sq) B2Dy (clamp (NumF64 sq)) N (sreset (NumF64 sq) N) (chan_evs (NumF64 sq) c ops)) = true.
+Proof. exact verdict_model_f64. Qed.
+Print Assumptions c11_verdict_accepts_model_f64.
+
+(* the real-number core of the drift bound (kept from the earlier partial result): one step of the
+   executable recurrence [e_next] (including its upward rounding to 64 bits) is sound for the
+   standard rounding model |fl(t) - t| <= u|t| + eta of the three operations of next_squared
+   (x*x, sum + new, - evicted) followed by the clamp.  c11_drift_bound discharges the five rounding
+   hypotheses along the Flocq run (RmsDriftProofs.v). *)
+Theorem c11_drift_step : forall (u eta S T q r : dy) (s qt rt a d : R),
   (0 <= F2R u -> 0 <= F2R eta -> 0 <= F2R S -> 0 <= F2R T -> 0 <= F2R q -> 0 <= F2R r ->
   0 <= F2R (dsub (dadd S q) r) ->
   Rabs (s - F2R S) <= F2R T ->
@@ -147,4 +266,4 @@ Theorem c11_drift_bound_partial : forall (u eta S T q r : dy) (s qt rt a d : R),
   Rabs (d - (a - rt)) <= F2R u * Rabs (a - rt) + F2R eta ->
   Rabs (clampR d - F2R (dsub (dadd S q) r)) <= F2R (e_next u eta S T q r))%R.
 Proof. exact drift_step. Qed.
-Print Assumptions c11_drift_bound_partial.
+Print Assumptions c11_drift_step.
